@@ -114,4 +114,16 @@ def check(prop, tier):
 
 
 def replay(path):
-    return check(json.load(open(path))["property"], "quick")
+    """re-run the one robot definition of the replay file against the required outcome TLC computed for it"""
+    rp = json.load(open(path))
+    d = tlc.workdir("injreplay")
+    cp, op = os.path.join(d, "cases.json"), os.path.join(d, "out.json")
+    json.dump([rp["case"]], open(cp, "w"))
+    run_driver("inject_driver.py", ["--cases", cp, "--out", op], cwd=d)
+    o = json.load(open(op))[0]
+    f = judge_case(rp["expected"], o)
+    print("replay: required %s observed %s -> %s" % (json.dumps(rp["expected"]), json.dumps(o), f or "agrees"))
+    if f:
+        print("VIOLATION property=%s replay=%s" % (rp["property"], path))
+        return 1
+    return 0
